@@ -13,7 +13,7 @@ import (
 //   k <clientPingPeriod> <clientPongWait> <serverPingWait> <serverPingPeriod> <serverPongWait>   (ms; periods 0|40, waits 0|160)
 //        -> alive | dropped      after 600 ms of idleness
 //   d <serverPingWait> <serverPingPeriod> <serverPongWait>     a raw peer that never reads, never pings
-//        -> detected | kept | late
+//        -> detected:<the configured wait (ms) closest to the time of the drop> | kept | late
 
 type wska struct{}
 
@@ -32,11 +32,14 @@ func (wska) Gen(r *rand.Rand, n int) []string {
 	var out []string
 	p := func() int { return []int{0, 40}[r.Intn(2)] }
 	w := func() int { return []int{0, 160}[r.Intn(2)] }
+	// the server's two waits also take values that differ from each other (which of them applies is part of the contract)
+	wd := func() int { return []int{0, 160, 160, 1200}[r.Intn(4)] }
+	wk := func() int { return []int{0, 160, 160, 20}[r.Intn(4)] }
 	for i := 0; i < n; i++ {
 		if r.Intn(4) == 0 {
-			out = append(out, fmt.Sprintf("d %d %d %d", w(), p(), w()))
+			out = append(out, fmt.Sprintf("d %d %d %d", wd(), p(), wd()))
 		} else {
-			out = append(out, fmt.Sprintf("k %d %d %d %d %d", p(), w(), w(), p(), w()))
+			out = append(out, fmt.Sprintf("k %d %d %d %d %d", p(), w(), wk(), p(), w()))
 		}
 	}
 	return out
@@ -97,7 +100,14 @@ func wskaOne(f []string) string {
 		waitCond(time.Second, func() bool { return c.size() >= 1 })
 		c.take()
 		t0 := time.Now()
-		got := waitCond(900*time.Millisecond, func() bool {
+		maxW := ms(f[1])
+		if ms(f[3]) > maxW {
+			maxW = ms(f[3])
+		}
+		if maxW < 160*time.Millisecond {
+			maxW = 160 * time.Millisecond
+		}
+		got := waitCond(maxW+740*time.Millisecond, func() bool {
 			for _, e := range c.snapshot() {
 				if e.kind == "disc" {
 					return true
@@ -108,10 +118,26 @@ func wskaOne(f []string) string {
 		if !got {
 			return "kept"
 		}
-		if time.Since(t0) > 160*time.Millisecond+400*time.Millisecond {
+		el := time.Since(t0)
+		// which configured wait was applied: the closest one (the candidates are at least a second apart, or equal)
+		best, bestD := "", time.Duration(1<<62)
+		for _, k := range []int{1, 3} {
+			w := ms(f[k])
+			if w == 0 {
+				continue
+			}
+			d := el - w
+			if d < 0 {
+				d = -d
+			}
+			if d < bestD {
+				best, bestD = f[k], d
+			}
+		}
+		if best == "" || el > ms(best)+400*time.Millisecond {
 			return "late"
 		}
-		return "detected"
+		return "detected:" + best
 	}
 	return "bad-op"
 }
